@@ -56,7 +56,8 @@ pub fn gen_case(prop: &str, verif_seed: u64, idx: u64) -> BtReplay {
     // payload size of the tree, small enough never to need an overflow page at any page size / min keys
     // of the swarm (open findings D31b/D32). A third of the trees mix payload sizes of 8-104 bytes from
     // operation to operation (D31, repaired); mixes that include cells of 450-650 bytes are open finding D31e
-    let payload_len = if tall { *rng.pick(&[104usize, 200, 200, 400]) } else { *rng.pick(&[8usize, 24, 104, 200, 400]) };
+    let overflow_experiment = std::env::var("AXSIM_NOGUARD").map(|g| g.contains("rows_with_overflow_chains")).unwrap_or(false);
+    let payload_len = if overflow_experiment { *rng.pick(&[1000usize, 3000, 6000, 10000]) } else if tall { *rng.pick(&[104usize, 200, 200, 400]) } else { *rng.pick(&[8usize, 24, 104, 200, 400]) };
     let page = if tall { 4096 } else { page };
     let mut ops = vec![];
     let mut asc = 0i64;
